@@ -41,7 +41,7 @@ ASSUMPTIONS = [
     "sibling order / node order of the result is free (tags decide)",
 ]
 REQUIRED = ["redirect_checked", "redirect_chained_checked", "cat_checked", "cat_merged",
-            "cat_linked", "cat_translate", "cat_no_translate", "tap_redirect_tree", "tap_cat_tree"]
+            "cat_linked", "cat_translate", "cat_no_translate", "cat_flag_as_numpy_bool_or_int", "tap_redirect_tree", "tap_cat_tree"]
 FLOOR = {"quick": 2500, "thorough": 50000}
 SHARDS = {"quick": 8, "thorough": 16}
 
@@ -197,7 +197,9 @@ def _exec_cat(ctx, case):
     _place_junction(A, B, a, b, case.get("junction", "asis"), case.get("jseed", 0))
     ca, cb = _cols(A), _cols(B)
     if (a + b) % 3 == 0:
-        out = cat_tree(A, B, np.int64(a), np.int32(b), translate=tr)
+        # node ids as numpy scalars, the flag as a numpy bool (e.g. the result of a comparison)
+        out = cat_tree(A, B, np.int64(a), np.int32(b), translate=np.bool_(tr))
+        ctx.count("cat_flag_as_numpy_bool_or_int")
     elif (a + b) % 3 == 1 and not tr:
         import warnings as _w
 
@@ -205,6 +207,9 @@ def _exec_cat(ctx, case):
             _w.simplefilter("ignore")
             out = cat_tree(A, B, a, b, no_move=True)  # the older spelling of translate=False
         ctx.count("cat_legacy_no_move")
+    elif (a + b) % 2:
+        out = cat_tree(A, B, a, b, translate=int(tr))
+        ctx.count("cat_flag_as_numpy_bool_or_int")
     else:
         out = cat_tree(A, B, a, b, translate=tr)
     ctx.count("cat_checked")
